@@ -13,7 +13,8 @@ The generated tables (`SafeC.Gen.Uni*`, written by tools/gen17.py from the CURRE
 (`cell w data i`).  Reading `main` at an index `≥ mainN`, `UNWIF_canon_tbl` at an index `≥ 4` or a value table behind its
 last entry is the C's out-of-bounds read; the model reports it as `oob` (lookups return `none`) instead of inventing a value.
 
-`Fixes` selects the code as it is (`unrepaired`) or as repaired by `fixes/wcsnorm-*.diff`; `current` is what the driver runs.
+`Fixes` selects the code as it was (`unrepaired`) or as repaired by `fixes/wcsnorm-*.diff` and `fixes/wcsfc-multichar-room-check.diff`;
+`current` is what the driver runs.
 -/
 namespace SafeC.Norm
 open SafeC.Gen
@@ -24,12 +25,18 @@ structure Fixes where
   compCast : Bool
   /-- `wcsnorm_reorder_s`, `wcsnorm_compose_s`, `wcsfc_s` reject a cell `> _UNICODE_MAX` (ESLEMAX) before any table lookup -/
   rangeChk : Bool
+  /-- `wcsfc_s` (Models/Fold.lean only; the functions of this file ignore it): the `iswfc(cp) > 1` branch tests `dmax < 5`
+  (`goto too_small`, ESNOSPC) before it stores its 2..4 cells — `fixes/wcsfc-multichar-room-check.diff` -/
+  foldRoom : Bool
 deriving DecidableEq, Repr
 
-def unrepaired : Fixes := ⟨false, false⟩
-def allFixed : Fixes := ⟨true, true⟩
-/-- THE line to flip when the fixes land in /repo -/
-def current : Fixes := allFixed
+def unrepaired : Fixes := ⟨false, false, false⟩
+def allFixed : Fixes := ⟨true, true, true⟩
+/-- the tree with the two wcsnorm fix commits (014b5d7, 1d9cc16) but without the room check of wcsfc_s -/
+def normFixed : Fixes := ⟨true, true, false⟩
+/-- THE line to flip when a fix lands in /repo: `normFixed` = /repo as it is now; `allFixed` once
+`fixes/wcsfc-multichar-room-check.diff` is applied -/
+def current : Fixes := normFixed
 
 /-- cell `i` of a packed array of `w`-bit cells -/
 def cell (w data i : Nat) : Nat := (data >>> (w * i)) % 2 ^ w
